@@ -353,8 +353,12 @@ class _Timeout(BaseException):
     """not an Exception: constant folding catches Exception and would swallow the guard"""
 
 
+_ARMED = [False]
+
+
 def _alarm(sig, frm):
-    raise _Timeout()
+    if _ARMED[0]:          # a tick that arrives while the guard is being taken down must not raise
+        raise _Timeout()
 
 
 def load_outcome(cfgname, src):
@@ -366,6 +370,7 @@ def load_outcome(cfgname, src):
     # with a generous wall-clock backstop
     signal.signal(signal.SIGVTALRM, _alarm)
     signal.signal(signal.SIGALRM, _alarm)
+    _ARMED[0] = True
     signal.setitimer(signal.ITIMER_VIRTUAL, 5.0, 1.0)      # re-fires: a handler that swallows it does not disarm the guard
     signal.setitimer(signal.ITIMER_REAL, 120.0, 5.0)
     try:
@@ -405,6 +410,7 @@ def load_outcome(cfgname, src):
         except BaseException as e:  # noqa
             return f"{type(e).__name__}: {str(e)[:100]}"
     finally:
+        _ARMED[0] = False
         signal.setitimer(signal.ITIMER_VIRTUAL, 0)
         signal.setitimer(signal.ITIMER_REAL, 0)
 
@@ -417,7 +423,13 @@ def _work(chunk):
     resource.setrlimit(resource.RLIMIT_AS, (6 * 2 ** 30, 6 * 2 ** 30))
     out = []
     for cfgname, src in chunk:
-        w = load_outcome(cfgname, src)
+        try:
+            w = load_outcome(cfgname, src)
+        except _Timeout:      # a second tick while the first was being handled
+            _ARMED[0] = False
+            signal.setitimer(signal.ITIMER_VIRTUAL, 0)
+            signal.setitimer(signal.ITIMER_REAL, 0)
+            w = "loading did not finish within 5 s of CPU time"
         if w:
             out.append((cfgname, src, w))
     return len(chunk), out
